@@ -42,7 +42,10 @@ def get_go_type_from_attributes(molecule, prefix, **kwargs):
     """
     for node in molecule.nodes:
         attrs = molecule.nodes[node]
-        if attributes_match(attrs, kwargs) and attrs['atype'].startswith(prefix):
+        # Go virtual sites have the atom type "<prefix>_<resid>". Requiring the
+        # underscore avoids picking a regular bead whose type merely starts
+        # with the prefix (e.g. bead type "P2" for a molecule named "P").
+        if attributes_match(attrs, kwargs) and attrs['atype'].startswith(prefix + '_'):
             yield attrs['atype']
     else:
         resid = kwargs['resid']
